@@ -16,6 +16,7 @@ MODULES = [
     "contracts.c_proxy",
     "contracts.c_misc",
     "contracts.c_apply",
+    "contracts.c_loops",
 ]
 EXPECTED_MIN_OBLIGATIONS = {}
 PROPERTY_ASSUMPTIONS = {}
